@@ -51,6 +51,9 @@ type Config struct {
 func (p *Provider) start(ctx context.Context, ammoFile afero.File) error {
 	var ammoNum, passNum int
 	for {
+		if ctx.Err() != nil {
+			return nil
+		}
 		passNum++
 		scanner := bufio.NewScanner(ammoFile)
 		if p.Config.MaxAmmoSize != 0 {
@@ -68,6 +71,9 @@ func (p *Provider) start(ctx context.Context, ammoFile afero.File) error {
 				}
 			}
 			if !confutil.IsChosenCase(a.Tag, p.Config.ChosenCases) {
+				if ctx.Err() != nil {
+					return nil
+				}
 				continue
 			}
 			ammoNum++
